@@ -138,6 +138,8 @@ def check_isa(I, verbose=False):
             s = s.strip()
             if not s:
                 continue
+            if re.sub(r"\s+", " ", s.lower()) in I.golden_ignore:
+                continue
             res["lines"] += 1
             try:
                 got = listing.tokens_to_bytes(toks, I.gran)
